@@ -12,14 +12,14 @@ Theorem C20_peek_pure : forall c o, is_peek o = true -> fst (step c o) = c.
 Proof. exact peek_pure. Qed.
 
 Theorem C20_search_and_move_exact : forall c o n, sm_len o = Some n ->
-  exists b, snd (step c o) = COk (VBool b) /\ pos (fst (step c o)) = (if b then pos c + n else pos c)%nat.
+  exists b, snd (step c o) = COk (CVBool b) /\ pos (fst (step c o)) = (if b then pos c + n else pos c)%nat.
 Proof. exact search_and_move_exact. Qed.
 
 Theorem C20_search_and_move_agrees_with_search : forall c o o', twin o = Some o' -> snd (step c o) = snd (step c o').
 Proof. exact search_and_move_agrees. Qed.
 
 Theorem C20_match_exact : forall c ps,
-  (search c ps = true /\ step c (OMatch ps) = (moved c (length ps), COk VUnit)) \/
+  (search c ps = true /\ step c (OMatch ps) = (moved c (length ps), COk CVUnit)) \/
   (search c ps = false /\ step c (OMatch ps) = (c, CErr ParseErr)).
 Proof. exact match_exact. Qed.
 
